@@ -130,10 +130,17 @@ type c12Env struct {
 	defH otp.Param
 	defT otp.Param
 	reg  map[string]otp.SuiteConfig
+	// regNames: the registered names, sorted (read from the registry through the verif hook)
+	regNames []string
 }
 
 func newC12Env() *c12Env {
-	return &c12Env{base: nonPool(irt.Globals()), defH: *otp.DefaultHOTPParam, defT: *otp.DefaultTOTPParam, reg: otp.VerifKnownSuites()}
+	e := &c12Env{base: nonPool(irt.Globals()), defH: *otp.DefaultHOTPParam, defT: *otp.DefaultTOTPParam, reg: otp.VerifKnownSuites()}
+	for n := range e.reg {
+		e.regNames = append(e.regNames, n)
+	}
+	sort.Strings(e.regNames)
+	return e
 }
 
 // run executes one operation with arguments in the requested memory shape, then checks
@@ -357,6 +364,30 @@ func (e *c12Env) run(c c12Case) (obs, bad string) {
 					l1[i] = "scribbled"
 				}
 				l2 := otp.ListSuites()
+				// the list a caller received is the caller's: what it wrote there stays, whatever is listed later ...
+				for i := range l1 {
+					if l1[i] != "scribbled" {
+						panic(fmt.Sprintf("VERIF-C12: the caller overwrote the list ListSuites had returned; after a later ListSuites call its element %d reads %q again (the list shares memory with later results)", i, l1[i]))
+					}
+				}
+				sort.Strings(l2)
+				// ... and a later list does not show what an earlier caller did to its own
+				want := append([]string(nil), e.regNames...)
+				if fmt.Sprint(l2) != fmt.Sprint(want) {
+					panic(fmt.Sprintf("VERIF-C12: ListSuites after a caller overwrote an earlier result returns %.80q..., not the registered names", fmt.Sprint(l2)))
+				}
+				for i, j := 0, len(l2)-1; i < j; i, j = i+1, j-1 {
+					l2[i], l2[j] = l2[j], l2[i] // the caller re-orders its list in place
+				}
+				mine := append([]string(nil), l2...)
+				l3 := otp.ListSuites()
+				if fmt.Sprint(l2) != fmt.Sprint(mine) {
+					panic("VERIF-C12: a later ListSuites call re-wrote the list an earlier caller holds (and had re-ordered in place)")
+				}
+				sort.Strings(l3)
+				if fmt.Sprint(l3) != fmt.Sprint(want) {
+					panic("VERIF-C12: ListSuites returns something else than the registered names after a caller re-ordered an earlier result")
+				}
 				sort.Strings(l2)
 				results = append(results, fmt.Sprint(len(l2), irt.HashValue(l2)))
 				name := "OCRA-1:HOTP-SHA256-8:C-QA10-PSHA256-S-T1"
